@@ -708,6 +708,11 @@ impl<'b, 'a: 'b> FmtVisitor<'a> {
             (ast::AssocItemKind::MacCall(ref mac), _) => {
                 self.visit_mac(mac, MacroPosition::Item);
             }
+            (ast::AssocItemKind::Delegation(..) | ast::AssocItemKind::DelegationMac(..), _) => {
+                // TODO: rewrite delegation items once syntax is established.
+                // For now, leave them alone.
+                self.push_rewrite(ai.span, None);
+            }
             _ => unreachable!(),
         }
         self.skip_context = skip_context_saved;
